@@ -48,6 +48,14 @@ theorem graceful_not_forced (P : Params) (hP : P.Good) (proto : Proto) (lost : B
   obtain ⟨h1, h2, h3, h4, h5⟩ := hP
   cases proto <;> cases lost <;> simp [kill, close, h1, h2, h3, h4, h5]
 
+/-- the net/rpc race in which the exiting plugin is gone before the host has closed its remaining streams: `Kill` issues
+its force kill against a process that has already exited — the plugin still finished its clean-up, is dead and reported
+as exited, and `Kill` returned at once -/
+theorem gone_peer_force_is_harmless (P : Params) (hP : P.Good) :
+    (killGonePeer P).cleanedUp = true ∧ (killGonePeer P).procDead = true ∧ (killGonePeer P).exitedFlag = true ∧
+    (killGonePeer P).returns = true ∧ (killGonePeer P).boundMs = 0 := by
+  simp [killGonePeer, hP.2.2.2.2.1]
+
 /-- **A plugin that does not exit in time is force-killed after the grace period** (too slow, ignoring, frozen). -/
 theorem forced_after_grace (P : Params) (hP : P.Good) (proto : Proto) (beh : Beh) (lost : Bool)
     (hb : beh = .exitsSlow ∨ beh = .ignores ∨ beh = .frozen) :
